@@ -164,6 +164,7 @@ func checkC17(p *load.Program, r *kit.Report) {
 	checkSaveInvalidWrites(p, r)
 	checkShrinkSiblings(p, r, "SHRINK-SIBLING")
 	checkBranchesTrim(p, r)
+	checkBranchTrimIndex(p, r)
 }
 
 // checkSaveAfterChange: from every store to repo.invalidHashes, every path to a nil return passes
@@ -252,13 +253,86 @@ func checkShrinkSiblings(p *load.Program, r *kit.Report, rule string) {
 			}
 			name := kit.ShortID(kit.FuncID(f))
 			r.Fn(name)
-			r.Check(hasDelete, rule, name+"/reslice-headers", posOf(p, w.Instr), "the dropped hashes are deleted from heightsMap",
-				name+" drops headers from the branch but leaves their hashes in heightsMap: Find keeps answering for removed headers")
+			why := name + " drops headers from the branch but leaves their hashes in heightsMap: Find keeps answering for removed headers"
+			// the deleted keys are the hashes of exactly the dropped part, read from the slice as
+			// it was BEFORE the re-slice
+			if hasDelete {
+				lin := kit.NewLin(f)
+				for _, w2 := range kit.DirectWrites(f) {
+					if w2.Kind != "delete" || w2.Field != mapF {
+						continue
+					}
+					key := w2.Instr.(ssa.CallInstruction).Common().Args[1]
+					hf, el := kit.LoadedField(key)
+					if hf == nil || hf.Name() != "Hash" {
+						continue
+					}
+					src, _, ok := elemIndex(el)
+					if !ok {
+						continue
+					}
+					part, isSl := kit.Strip(src).(*ssa.Slice)
+					if !isSl || !loadOfField(part.X, headersF) {
+						continue
+					}
+					// complementary bounds
+					okBounds := false
+					switch {
+					case sl.High != nil && sl.Low == nil && part.Low != nil && part.High == nil:
+						okBounds = lin.Of(sl.High).Equal(lin.Of(part.Low))
+					case sl.Low != nil && sl.High == nil && part.High != nil && part.Low == nil:
+						okBounds = lin.Of(sl.Low).Equal(lin.Of(part.High))
+					}
+					if !okBounds {
+						hasDelete = false
+						why = name + " deletes the hashes of a part of the headers that is not the part it drops"
+					}
+					// the old slice: the load feeding the range must not come after the store
+					if ld, ok := kit.Strip(part.X).(ssa.Instruction); ok {
+						if kit.Reach(f, kit.After(w.Instr), kit.Opts{}).Has(ld) {
+							hasDelete = false
+							why = name + " re-slices the headers before it walks the dropped part: the walk sees an empty tail, the dropped hashes stay in heightsMap and Find keeps answering for removed headers"
+						}
+					}
+				}
+			}
+			r.Check(hasDelete, rule, name+"/reslice-headers", posOf(p, w.Instr), "the dropped hashes are deleted from heightsMap (complementary bounds, old slice)", why)
 		}
 	}
 	if n == 0 {
 		r.Unknown(rule, "reslice-sites", "-", "no function re-slices Branch.headers")
 	}
+}
+
+// checkBranchTrimIndex: Branch.Trim(height) keeps headers[:height-parentHeight-offset]: the header
+// at `height` sits at that index (offset counts the pruned headers), so that it and everything
+// above it is cut.
+func checkBranchTrimIndex(p *load.Program, r *kit.Report) {
+	f := fn(p, r, "TRIM-SHAPE", H, "Branch.Trim")
+	if f == nil {
+		return
+	}
+	headersF := p.Field(H, "Branch", "headers")
+	lin := kit.NewLin(f)
+	recvKey := lin.Key(f.Params[0])
+	want := pAtom(f, 1).Sub(kit.LinAtom("f:" + recvKey + "." + curName(p, "parentHeight"))).Sub(kit.LinAtom("f:" + recvKey + "." + curName(p, "offset")))
+	bad := "Branch.Trim does not cut the headers"
+	for _, w := range kit.DirectWrites(f) {
+		if w.Field != headersF || w.Kind != "store" {
+			continue
+		}
+		sl, ok := w.Val.(*ssa.Slice)
+		if !ok || sl.High == nil || sl.Low != nil {
+			continue
+		}
+		got := lin.Of(sl.High)
+		if got.Equal(want) {
+			bad = ""
+		} else {
+			bad = "Branch.Trim keeps headers[:" + got.String() + "], want headers[:" + want.String() + "]: once the branch has pruned headers (offset > 1) the cut is at the wrong header, so the marked header stays (or the trim fails after the mark was persisted)"
+		}
+	}
+	r.Check(bad == "", "TRIM-SHAPE", "Branch.Trim/cut-index", posOf(p, f.Blocks[0].Instrs[0]), "keeps headers[:height-parentHeight-offset]", bad)
 }
 
 func checkBranchesTrim(p *load.Program, r *kit.Report) {
